@@ -4,4 +4,8 @@ import HH.Packet
 import HH.Portable
 import HH.Spec
 import HH.Hex
+import HH.Intrin.X86
+import HH.Sse
+import HH.Avx
+import HH.Dispatch
 import HH.Machine
